@@ -732,6 +732,21 @@ class G:
         """public-operator requests whose wide-path floor quotient sits at ±(2^127 - 1), ±2^127 or next to them, with a remainder
         that the mode may round up (the increment overflows) or down"""
         r = self.r
+        if r.random() < 0.15:
+            # quotient at 2^128: the upper 128 bits of dividend·10^p equal the divisor exactly (or differ by one)
+            pw = r.randrange(20, 37)
+            d = r.choice([r.randrange(2 ** 64, 10 ** pw // 2), r.randrange(2, 2 ** 64), 10 ** r.randrange(1, pw - 1)])
+            d = min(d, 10 ** pw // 2 - 1)
+            hi = d + r.choice([0, 0, 0, 1, -1])
+            a = -(-(hi * 2 ** 128) // 10 ** pw)            # ceil
+            if a > MAX:
+                a = MAX
+            sa, sd = r.choice([(1, 1), (1, 1), (-1, 1), (1, -1), (-1, -1)])
+            s2 = r.randrange(pw - 18, 19)
+            nn = pw - s2
+            if r.random() < 0.5 and nn == 18:
+                return f"{self.mode()} {r.choice(['div', 'cdiv'])} vv {sa * a} 0 {sd * d} {s2}"
+            return f"{self.mode()} divr vv {sa * a} 0 {sd * d} {s2} {nn}"
         T = r.choice([MAX, MAX, MAX, MAX + 1, MAX - 1])
         if r.random() < 0.5:
             # division: a·10^p = T·d + rem, 0 <= rem < d < 10^p
